@@ -220,7 +220,7 @@ func TestC20(t *testing.T) {
 	}
 	ncase := 0
 
-	rt.Check(t, rec, "roundtrip", 150, 1200, func(t *rapid.T) {
+	rt.Check(t, rec, "roundtrip", 120, 1200, func(t *rapid.T) {
 		ncase++
 		if ncase%20 == 0 {
 			unmapUnder(dir)
